@@ -3,6 +3,8 @@
 -/
 import Drx.Riff
 import Drx.RiffSpec
+import Drx.Layout
+import Drx.Gen.RiffLayouts
 import DrxProofs.Py
 namespace Drx.Riff
 open Drx
@@ -515,5 +517,140 @@ theorem findRiffInExe_first_genuine (b : Bytes) (p : Nat) (hg : Genuine b p) (hm
     findRiffInExe b = p := by
   have := locate_aux b p hg hmin (p - 0) 0 rfl (Nat.zero_le _)
   simpa [findRiffInExe] using this
+
+end Drx.Riff
+
+namespace Drx.Riff
+open Drx Drx.Layout
+
+/-! ### hand-written readers = generic reader over the layouts regenerated from the source -/
+
+theorem parseMmapEntry_eq_layout (d : Bytes) (off : Nat) (o : Order) :
+    parseMmapEntry d off o =
+      (match parseChunkId d off o with
+       | .error e => .error e
+       | .ok id =>
+         match readLayout o d off Gen.RiffLayouts.mmapEntry with
+         | .ok [size, offs, flag, unus, nxt] => .ok ⟨id, size, offs, flag, unus, nxt⟩
+         | .ok _ => .error .other
+         | .error e => .error e) := by
+  unfold parseMmapEntry
+  simp only [Gen.RiffLayouts.mmapEntry, readLayout, readField, if_true, bind, Except.bind]
+  cases parseChunkId d off o with
+  | error e => rfl
+  | ok id =>
+    simp only []
+    cases getS o 4 d (off + 4) with
+    | error e => rfl
+    | ok a =>
+      simp only []
+      cases getS o 4 d (off + 8) with
+      | error e => rfl
+      | ok b =>
+        simp only []
+        cases getS o 2 d (off + 12) with
+        | error e => rfl
+        | ok c =>
+          simp only []
+          cases getS o 2 d (off + 14) with
+          | error e => rfl
+          | ok e' =>
+            simp only []
+            cases getS o 4 d (off + 16) with
+            | error e => rfl
+            | ok f => rfl
+
+theorem getS_ok_of_length (o : Order) (k : Nat) (d : Bytes) (off : Nat) (h : off + k ≤ d.length) :
+    ∃ v, getS o k d off = .ok v := by
+  unfold getS unpackS
+  have : (slice d off (off + k)).length = k := by simp [slice]; omega
+  simp [this]
+
+theorem parseImap_eq_layout (d : Bytes) (o : Order) :
+    parseImap d o =
+      (if d.length ≠ 24 then .error .struct else
+       match readLayout o d 0 Gen.RiffLayouts.imap with
+       | .ok [a, b, c, e, f, g, _] => .ok ⟨a, b, c, e, f, g⟩
+       | .ok _ => .error .other
+       | .error e => .error e) := by
+  unfold parseImap
+  by_cases hl : d.length = 24
+  · simp only [hl, ne_eq, not_true_eq_false, if_false]
+    simp only [Gen.RiffLayouts.imap, readLayout, readField, if_true, bind, Except.bind, Nat.zero_add]
+    obtain ⟨v7, h7⟩ := getS_ok_of_length o 4 d 20 (by omega)
+    cases getS o 4 d 0 with
+    | error e => rfl
+    | ok a =>
+      simp only []
+      cases getS o 4 d 4 with
+      | error e => rfl
+      | ok b =>
+        simp only []
+        cases getS o 4 d 8 with
+        | error e => rfl
+        | ok c =>
+          simp only []
+          cases getS o 2 d 12 with
+          | error e => rfl
+          | ok e' =>
+            simp only []
+            cases getS o 2 d 14 with
+            | error e => rfl
+            | ok f =>
+              simp only []
+              cases getS o 4 d 16 with
+              | error e => rfl
+              | ok g => simp only [h7]
+  · simp [hl]
+
+end Drx.Riff
+
+namespace Drx.Riff
+open Drx Drx.Layout
+
+theorem parseMmap_eq_layout (d : Bytes) (o : Order) :
+    parseMmap d o =
+      (if (slice d 0 24).length ≠ 24 then .error .struct else
+       match readLayout o d 0 Gen.RiffLayouts.mmapHeader with
+       | .ok [a, b, c, u, j, om, ff] =>
+         (match parseMmapEntries d o u.toNat 24 with
+          | .ok rs => .ok ⟨a, b, c, u, j, om, ff, rs⟩
+          | .error e => .error e)
+       | .ok _ => .error .other
+       | .error e => .error e) := by
+  unfold parseMmap
+  by_cases hl : (slice d 0 24).length = 24
+  · simp only [hl, ne_eq, not_true_eq_false, if_false]
+    simp only [Gen.RiffLayouts.mmapHeader, readLayout, readField, if_true, bind, Except.bind, Nat.zero_add]
+    cases getS o 2 d 0 with
+    | error e => rfl
+    | ok a =>
+      simp only []
+      cases getS o 2 d 2 with
+      | error e => rfl
+      | ok b =>
+        simp only []
+        cases getS o 4 d 4 with
+        | error e => rfl
+        | ok c =>
+          simp only []
+          cases getS o 4 d 8 with
+          | error e => rfl
+          | ok u =>
+            simp only []
+            cases getS o 4 d 12 with
+            | error e => rfl
+            | ok j =>
+              simp only []
+              cases getS o 4 d 16 with
+              | error e => rfl
+              | ok om =>
+                simp only []
+                cases getS o 4 d 20 with
+                | error e => rfl
+                | ok ff =>
+                  simp only []
+                  cases parseMmapEntries d o u.toNat 24 <;> rfl
+  · simp [hl]
 
 end Drx.Riff
